@@ -47,6 +47,11 @@ func (dsp *DataStreamProcessor) removeProjectorsBasis() {
 
 // SetProjectorsBasis sets .projectors and .basis to the arguments, returns an error if the sizes are not right
 func (dsp *DataStreamProcessor) SetProjectorsBasis(projectors *mat.Dense, basis *mat.Dense, modelDescription string) error {
+	// An open OFF file states the projectors and basis in its header and takes one coefficient per
+	// basis vector in every record; they cannot change under it.
+	if dsp.DataPublisher.HasOFF() {
+		return fmt.Errorf("stop writing OFF files before changing projectors")
+	}
 	rows, cols := projectors.Dims()
 	nbases := rows
 	if dsp.NSamples != cols {
